@@ -40,7 +40,7 @@ class IOSuite(cc.ChanSuite):
             buf = bytes(range(65, 65 + ln))
             import itertools
             for acc in itertools.product(range(1, ln + 1), repeat=ln):
-                for slow in (None, [1, 2]):
+                for slow in (None, [1, 2], [0, 1]):            # delay 0 = chunking without a pause
                     ops = ([["set_slow", slow]] if slow else []) + [["write", buf.hex()], ["send", buf.hex(), False, None]]
                     yield {"pieces": [], "accept": list(acc) * 2, "ops": ops}
         # random scripts
@@ -71,7 +71,7 @@ class IOSuite(cc.ChanSuite):
                 elif x < 0.93:
                     ops.append(["set_blacklist", rng.sample([3, 36, 13, 10, 97, 0xc3], rng.randint(0, 2))])
                 else:
-                    ops.append(["set_slow", rng.choice([None, [1, 1], [4, 3], [2, 32]])])
+                    ops.append(["set_slow", rng.choice([None, [1, 1], [4, 3], [2, 32], [0, 2], [0, 1]])])
             yield {"pieces": cc.timed(pieces), "accept": [rng.randint(0, 6) for _ in range(rng.randint(0, 12))], "ops": ops}
         # big reads: requests are capped at READ_CHUNK_SIZE
         for n in ([4096, 4097, 9000] if thorough else [4097]):
